@@ -310,6 +310,158 @@ def big_job(job):
     return out
 
 
+# ---------------------------------------------------------------------------------------------
+# float64 exactness at the record times ("exactly y_i at t = t_i"): the real-valued encoding cannot see rounding, so the
+# term the real class returns for a query AT a record time is re-read in IEEE-754 double arithmetic (z3 FP theory)
+# ---------------------------------------------------------------------------------------------
+def _to_fp(t, sort, env):
+    if z3.is_rational_value(t) or z3.is_int_value(t):
+        num = t.numerator_as_long() if z3.is_rational_value(t) else t.as_long()
+        den = t.denominator_as_long() if z3.is_rational_value(t) else 1
+        v = z3.FPVal(float(num), sort)
+        return v if den == 1 else z3.fpDiv(z3.RNE(), v, z3.FPVal(float(den), sort))
+    k = t.decl().kind()
+    ch = [_to_fp(c, sort, env) for c in t.children()]
+    rm = z3.RNE()
+    if k == z3.Z3_OP_UNINTERPRETED and not ch:
+        return env.setdefault(t.decl().name(), z3.FP('fp_' + t.decl().name(), sort))
+    fold = {z3.Z3_OP_ADD: z3.fpAdd, z3.Z3_OP_SUB: z3.fpSub, z3.Z3_OP_MUL: z3.fpMul}
+    if k in fold:
+        r = ch[0]
+        for c in ch[1:]:
+            r = fold[k](rm, r, c)
+        return r
+    if k == z3.Z3_OP_DIV:
+        return z3.fpDiv(rm, ch[0], ch[1])
+    if k == z3.Z3_OP_UMINUS:
+        return z3.fpNeg(ch[0])
+    raise ValueError(f"no float reading for {t.decl()}")
+
+
+def exact_job(job):
+    bb = _bb()
+    N, sort = job['N'], (z3.Float64() if job.get('bits', 64) == 64 else z3.Float32())
+    tally = decide.Tally()
+    out = dict(violations=[], inconclusive=[], paths=0, growth_events=0)
+
+    class H(bb.DDEHistory):
+        _INITIAL_CAPACITY = 2
+    for i in range(0, N + 1):
+        t0 = symx.real('t0')
+        ts = [symx.real(f"t{k}") for k in range(1, N + 1)]
+        order = [ts[0].e > t0.e] + [ts[k].e < ts[k + 1].e for k in range(N - 1)]
+        allt = [t0] + ts
+
+        def harness():
+            ys = [np.array([symx.real(f"y{k}")], dtype=object) for k in range(N + 1)]
+            h = H(ys[0].copy(), t0=t0)
+            for k in range(1, N + 1):
+                h.update(ts[k - 1], ys[k].copy())
+            return h(allt[i])[0], ys
+        for pc, res in symx.explore(harness, assumptions=order):
+            out['paths'] += 1
+            if isinstance(res, BaseException):
+                out['violations'].append(dict(what=f"query at record time {i} raised {type(res).__name__}: {res}"))
+                continue
+            r, ys = res
+            env = {}
+            try:
+                rf = _to_fp(symx.lift(r), sort, env)
+                yi = _to_fp(symx.lift(ys[i][0]), sort, env)
+            except ValueError as ex:
+                out['inconclusive'].append(dict(what=str(ex)))
+                continue
+            # cheap refutation first: adversarial magnitudes on the real class (a concrete, replayed witness); the solver
+            # is asked for the PROOF over all finite doubles
+            pre = None
+            for trial in range(6):
+                mags = [1e17, 3.0, 0.1, -2.5e-9, 1e22, 7.0, -4e15, 0.3]
+                vals0 = {f"y{k}": mags[(k + trial) % len(mags)] for k in range(N + 1)}
+                vals0.update({'t0': 0.0}, **{f"t{k}": 0.5 * k + 0.1 * (k % 2) + trial * 0.01 for k in range(1, N + 1)})
+                pre = _replay_exact(N, i, vals0)
+                if pre is not None:
+                    tally.obligations += 1
+                    tally.sat += 1
+                    tally.sat_confirmed += 1
+                    out['violations'].append(dict(what=f"DDEHistory query at the record time t_{i} (of {N} updates) returns "
+                                                       f"{pre[0]!r} in float64, the record is {pre[1]!r} (the value is "
+                                                       f"recomputed: {str(r)[:90]})", env=vals0))
+                    break
+            if pre is not None:
+                continue
+            sol = z3.Solver()
+            sol.set('timeout', 120000)
+            big = z3.FPVal(1e100 if job.get('bits', 64) == 64 else 1e30, sort)
+            for v in env.values():
+                sol.add(z3.Not(z3.fpIsNaN(v)), z3.Not(z3.fpIsInf(v)), z3.fpLEQ(z3.fpAbs(v), big))
+            T = [env[n] for n in ['t0'] + [f"t{k}" for k in range(1, N + 1)] if n in env]
+            for a, b in zip(T, T[1:]):
+                sol.add(z3.fpLT(a, b))
+            sol.add(z3.Not(z3.fpEQ(rf, yi)))
+            import time as _t
+            st = _t.time()
+            v = str(sol.check())
+            symx.STATS['queries'] += 1
+            symx.STATS['solver_s'] += _t.time() - st
+            tally.obligations += 1
+            if v == 'unsat':
+                tally.unsat += 1
+            elif v == 'sat':
+                tally.sat += 1
+                m = sol.model()
+                vals = {}
+                for name, var in env.items():
+                    mv = m.eval(var, model_completion=True)
+                    try:
+                        vals[name] = float(eval(str(mv).replace('+oo', 'float("inf")')) if '*' in str(mv) else float(str(mv).replace('+oo', 'inf')))
+                    except Exception:   # noqa
+                        vals[name] = None
+                conf = _replay_exact(N, i, vals)
+                if conf is not None:
+                    tally.sat_confirmed += 1
+                    out['violations'].append(dict(what=f"DDEHistory query at the record time t_{i} (of {N} updates) returns "
+                                                       f"{conf[0]!r} in float64, the record is {conf[1]!r} (the value is "
+                                                       f"recomputed, e.g. {str(r)[:90]})", env=vals))
+                else:
+                    tally.sat_spurious += 1
+                    out['inconclusive'].append(dict(what='float counterexample not reproduced on the real class', env=str(vals)[:200]))
+            else:
+                tally.unknown += 1
+                out['inconclusive'].append(dict(what='float query unknown'))
+    out['tally'] = tally.as_dict()
+    return out
+
+
+def _replay_exact(N, i, vals):
+    import pyrates.backend.base.base_backend as bb
+    saved = vars(bb).pop('float', None)
+    try:
+        return _replay_exact2(bb, N, i, vals)
+    finally:
+        if saved is not None:
+            bb.float = saved
+
+
+def _replay_exact2(bb, N, i, vals):
+    class H(bb.DDEHistory):
+        _INITIAL_CAPACITY = 2
+    try:
+        T = [vals.get('t0')] + [vals.get(f"t{k}") for k in range(1, N + 1)]
+        Y = [vals.get(f"y{k}") for k in range(N + 1)]
+        if any(v is None for v in T):
+            return None
+        Y = [0.0 if y is None else y for y in Y]
+        h = H(np.array([Y[0]]), t0=T[0])
+        for k in range(1, N + 1):
+            h.update(T[k], np.array([Y[k]]))
+        got = float(np.asarray(h(T[i]))[0])
+        if got != Y[i]:
+            return got, Y[i]
+    except Exception:   # noqa
+        return None
+    return None
+
+
 def scenarios(tier):
     S = []
     shapes = [(1,), (3,), (2, 2), ()]
@@ -350,7 +502,7 @@ def run(tier='quick', seed=0, only=None, verbose=False):
                              queries='up to three symbolic query times in arbitrary order on the same object, after any update', dtypes='complex128, int64, float32: concrete probe at the record times only (not solver-decided)'),
                  stubs=['module-level name float = identity on Sym injected into pyrates.backend.base.base_backend'],
                  assumptions=['reals for floats (no rounding)', 'record times strictly increasing, t1 > t0',
-                              'object dtype stands for float64 in the symbolic runs; other dtypes only through the concrete dtype probe'])
+                              'object dtype stands for float64 in the symbolic runs; other dtypes only through the concrete dtype probe', 'float64-exact jobs: the returned term is re-read in IEEE double arithmetic (z3 FP theory) for finite values |v| <= 1e100, strictly increasing times'])
     jobs = scenarios(tier)
     for i, j in enumerate(jobs):
         j['key'] = f"N={j['N']} shape={j['shape']} cap={j['cap']} q={j['queries']}x{j.get('nq', 1)} max_steps={j.get('max_steps')}"
@@ -369,6 +521,21 @@ def run(tier='quick', seed=0, only=None, verbose=False):
                     if rep.programs % 17 == 0 else None)
         if r['paths'] < 1:
             rep.harness_error(f"{job['key']}: harness explored no path (vacuous)")
+        for v in r['violations']:
+            rep.violation(dict(property='C19', scenario=job, **v))
+        for i in r['inconclusive']:
+            rep.inconcl(dict(key=job['key'], **i))
+    ej = [dict(key=f"float64-exact:N={N}", N=N) for N in ((2, 3) if tier == 'quick' else (2, 3, 4, 5))]
+    if only:
+        ej = [j for j in ej if only in j['key']]
+    for job, out in runner.run_jobs(exact_job, ej, timeout=900):
+        if not out['ok']:
+            rep.harness_error(f"{job['key']}: {out['error']} {out.get('tb', '')[-300:]}")
+            continue
+        r = out['result']
+        rep.add_stats(out['stats'])
+        rep.add_tally(r['tally'])
+        rep.program(job['key'], sample=dict(scenario=job['key'], paths=r['paths'], obligations=r['tally']['obligations']))
         for v in r['violations']:
             rep.violation(dict(property='C19', scenario=job, **v))
         for i in r['inconclusive']:
